@@ -7,7 +7,9 @@ import (
 	"regexp"
 	"runtime"
 	"sync"
+	"sync/atomic"
 	"testing"
+	"time"
 
 	"github.com/dave/jennifer/jen"
 	"pgregory.net/rapid"
@@ -29,7 +31,31 @@ type Case struct {
 	Nonce  int  `json:"nonce"` // makes the non-std paths of this case unique in the process
 }
 
+// watchdog: a single Render that normally takes milliseconds and has not returned after a
+// minute is blocked, not slow (process-wide state left behind by other Files' renders can do
+// that); it is reported as a result that differs from the solo reference.
+const hangLimit = 45 * time.Second
+
+// hung is set once a render has been seen to block: the process is then beyond repair (whatever
+// blocks it is process-wide), so later renders report the same at once instead of waiting again.
+var hung atomic.Bool
+
 func renderFile(f *jen.File) string {
+	if hung.Load() {
+		return "HUNG: an earlier File.Render in this process never returned"
+	}
+	done := make(chan string, 1)
+	go func() { done <- renderFile0(f) }()
+	select {
+	case out := <-done:
+		return out
+	case <-time.After(hangLimit):
+		hung.Store(true)
+		return "HUNG: File.Render did not return within " + hangLimit.String()
+	}
+}
+
+func renderFile0(f *jen.File) string {
 	var out string
 	if err := hx.Safe(func() error {
 		buf := &bytes.Buffer{}
@@ -123,6 +149,21 @@ func (w *yieldWriter) Write(p []byte) (int, error) {
 }
 
 func renderYield(f *jen.File) string {
+	if hung.Load() {
+		return "HUNG: an earlier File.Render in this process never returned"
+	}
+	done := make(chan string, 1)
+	go func() { done <- renderYield0(f) }()
+	select {
+	case out := <-done:
+		return out
+	case <-time.After(hangLimit):
+		hung.Store(true)
+		return "HUNG: File.Render did not return within " + hangLimit.String()
+	}
+}
+
+func renderYield0(f *jen.File) string {
 	var out string
 	if err := hx.Safe(func() error {
 		w := &yieldWriter{}
